@@ -53,7 +53,7 @@ def register(R):
              f"implies({is_throw} and typeof(result.exception, 'StreamProtocolParseError'), {p['err']} and {U} == {p['rest']})", "C15 C02"),
             ("a-timeout-cancellation-or-transport-failure-is-thrown-only-when-no-complete-request-is-buffered-and-loses-nothing",
              f"implies({is_throw} and not typeof(result.exception, 'StreamProtocolParseError'), {U} == {X} and ({BADT} or fn('S_kind', 'int', {X}) == 0))", "C15 C10"),
-            BAD_TIMEOUT,
+            BAD_TIMEOUT, SCOPE,
             ("always-an-action", f"{is_send} or {is_throw}", "C15"),
         ] + FILTER_POST + [(f"consumer-inv-{i}", e, "C15") for i, e in enumerate(cons_inv)],
         raises={
@@ -78,7 +78,9 @@ FILTER_POST = [
      "ghost.filter_accepts == old(ghost.filter_accepts)", "C15"),
 ]
 FILTER_STOP = [FILTER_POST[0], ("the-request-stream-ends-on-at-most-one-accepted-disconnection", "ghost.filter_accepts <= old(ghost.filter_accepts) + 1", "C15")]
-FMODS = ["ghost.io_exc", "ghost.filter_calls", "ghost.filter_accepts", "ghost.bad_timeouts"]
+FMODS = ["ghost.io_exc", "ghost.filter_calls", "ghost.filter_accepts", "ghost.bad_timeouts", "ghost.timeout_scopes"]
+SCOPE = ("the-wait-for-the-next-request-runs-under-a-timeout-scope-exactly-when-the-handler-yielded-a-timeout (0 included: it means 'only what is already there')",
+         "ghost.timeout_scopes == old(ghost.timeout_scopes) + ite(isnone(timeout), 0, 1)", "C15")
 BADT = "ghost.bad_timeouts > old(ghost.bad_timeouts)"
 BAD_TIMEOUT = ("an-unusable-yielded-timeout-is-reported-to-the-handler-before-anything-is-read-and-costs-nothing", f"implies({BADT}, typeof(result, 'ThrowAction') and ghost.IN == old(ghost.IN))", "C15 C17")
 VAR = {"AsyncStreamReadTransport.recv": "server", "AsyncStreamReadTransport.recv_into": "server", "AsyncBackend.timeout": "yielded"}
@@ -167,7 +169,7 @@ def register_buffered(R):
              f"implies({is_throw} and typeof(result.exception, 'StreamProtocolParseError'), {p['err']} and {U} == {p['rest']})", "C15 C02"),
             ("a-timeout-cancellation-or-transport-failure-is-thrown-only-when-no-complete-request-is-buffered-and-loses-nothing",
              f"implies({is_throw} and not typeof(result.exception, 'StreamProtocolParseError') and not typeof(result.exception, 'RuntimeError'), {U} == {X} and ({BADT} or fn('S_kind', 'int', {X}) == 0))", "C15 C10"),
-            BAD_TIMEOUT,
+            BAD_TIMEOUT, SCOPE,
             ("always-an-action", f"{is_send} or {is_throw}", "C15"),
         ] + FILTER_POST + cons,
         raises={"StopAsyncIteration": [("only-at-end-of-stream-or-filtered-disconnect-with-no-complete-request-buffered", f"{U} == {X} and fn('S_kind', 'int', {X}) == 0", "C15 C03")] + FILTER_STOP + cons},
